@@ -33,6 +33,14 @@ for f in ("LayoutWord", "LayoutDoubleWord"):
                     object_bits=12, defs=["-DSTRINGSIZE=64"], functions=[f], bounded="string arguments of 1..3 characters (character loop unwound); integer arguments unbounded"))
 GROUPS.append(G("int_DUP_count", "harness/C09/h_intpseudo.c", "h_DUP_count", enforce=[], dfcc=False, drop_unused=True, link=["strcomp.c"], stubs=["stubs/gerr.c"], unwind=12, timeout=600,
                 object_bits=12, defs=["-DSTRINGSIZE=32"], cflags=["-include", "$VERIF/include/verif_ascii_ctype.h"], functions=["DecodeIntelPseudo_LayoutMult"], bounded="argument text '3 DUP(x)' with the count value an oracle in [-2^31, 6] (replication loop unwound)"))
+GROUPS.append(G("int_CodeFill_arith", "harness/C09/h_intpseudo.c", "h_CodeFill_arith", enforce=[], dfcc=False, drop_unused=True, link=[], stubs=["stubs/gerr.c"], unwind=4, timeout=900,
+                object_bits=12, defs=["-DSTRINGSIZE=32"], functions=["SubCodeFill", "IncCodeFillBy"]))
+for epw in (1, 2, 4):
+    GROUPS.append(G("int_CodeFill_mult_e%d" % epw, "harness/C09/h_intpseudo.c", "h_CodeFill_mult", enforce=[], dfcc=False, drop_unused=True, link=[], stubs=["stubs/gerr.c"], unwind=4, timeout=600,
+                    object_bits=12, defs=["-DSTRINGSIZE=32", "-DVERIF_EPW=%d" % epw], functions=["MultCodeFill"], solver="kissat", bounded="body sizes of 0..15 words (+ part of a word), every 32-bit count whose product is representable"))
+GROUPS.append(G("int_DUP_reserve", "harness/C09/h_intpseudo.c", "h_DUP_reserve", enforce=[], dfcc=False, drop_unused=True, link=["strcomp.c"], stubs=["stubs/gerr.c"], unwind=16, timeout=900,
+                object_bits=12, defs=["-DSTRINGSIZE=32"], cflags=["-include", "$VERIF/include/verif_ascii_ctype.h"], functions=["DecodeIntelPseudo_LayoutMult", "SubCodeFill", "MultCodeFill", "IncCodeFillBy"],
+                bounded="argument text '3 DUP(?,?,?)' with the count value an oracle in [1, 2^31-1]; element sizes of 1..10 words or 2/4 elements per word; start position arbitrary"))
 TRUSTED_BASE = ["CBMC's IEEE-754 conversion semantics for (float)x and (_Float16)x (round to nearest even) as specification oracle"]
 ASSUMPTIONS = ["host is little-endian IEEE (as built)"]
 NOT_COVERED = ["DecodeMotoDC statement loop (harness exists, exceeds solver budget; its helpers Enter* and the converters are under contract)", "vaxfloat.c", "ibmfloat.c", "ConvertMotoFloatDec", "tipseudo.c", "natpseudo.c", "fourpseudo.c"]
